@@ -47,6 +47,7 @@ type genCtx struct {
 	// probes / tags
 	lastInvoke int
 	catUsed    map[int]bool
+	tmpl       func(g *genCtx)
 }
 
 func (g *genCtx) newFunc(role Role) *Func {
@@ -721,4 +722,79 @@ func newGen(prop string, seed, run int64, thorough bool) *genCtx {
 	g.h.Cfg = Config{Recover: r.P(0.5), Defer: r.P(0.15), ShuffleSeed: r.I64(), PanicKind: r.Intn(3)}
 	g.m = NewModel(g.h.Cfg.Defer)
 	return g
+}
+
+// ---------------------------------------------------------------- templates
+
+func (g *genCtx) ensureScopes(n int) {
+	for len(g.m.S) < n {
+		g.addOp(Op{Kind: OpScope, Scope: 0, Tag: "tmpl"})
+		g.m.AddScope(0)
+	}
+}
+
+// simpleCtor registers ctor(params...) -> result in scope s.
+func (g *genCtx) simpleCtor(s int, params []int, result int, export bool, tag string) {
+	f := g.newFunc(RoleCtor)
+	for _, t := range params {
+		f.Params = append(f.Params, Param{Kind: PSingle, T: t})
+	}
+	f.Results = []Result{{Kind: RSingle, T: result}}
+	f.HasErr = g.r.P(0.5)
+	f.Export = export
+	i := g.addOp(Op{Kind: OpProvide, Scope: s, Fn: f.ID, Tag: tag})
+	if g.m.PredictProvide(s, f) == PredOK {
+		g.m.AddCtor(s, i, f)
+	}
+}
+
+func (g *genCtx) simpleInvoke(s int, params []int, tag string) {
+	f := g.newFunc(RoleInv)
+	for _, t := range params {
+		f.Params = append(f.Params, Param{Kind: PSingle, T: t})
+	}
+	g.addOp(Op{Kind: OpInvoke, Scope: s, Fn: f.ID, Tag: tag})
+}
+
+// tmplCrossSiblingCycle: exported constructors of two sibling scopes depend on
+// each other through private dependencies: no single scope's graph holds the
+// cycle. Uses 4 distinct types.
+func (g *genCtx) tmplCrossSiblingCycle() {
+	if g.ft.NT < 4 {
+		return
+	}
+	g.ensureScopes(3)
+	p := g.r.Perm(g.ft.NT)
+	a, b, x, y := p[0], p[1], p[2], p[3]
+	s1, s2 := 1, 2
+	steps := []func(){
+		func() { g.simpleCtor(s1, []int{b}, x, false, "cross-sibling") },
+		func() { g.simpleCtor(s1, []int{x}, a, true, "cross-sibling") },
+		func() { g.simpleCtor(s2, []int{a}, y, false, "cross-sibling") },
+		func() { g.simpleCtor(s2, []int{y}, b, true, "cross-sibling") },
+	}
+	for _, i := range g.r.Perm(len(steps)) {
+		steps[i]()
+	}
+	g.simpleInvoke([]int{0, s1, s2}[g.r.Intn(3)], []int{[]int{a, b}[g.r.Intn(2)]}, "cross-sibling")
+}
+
+// tmplDescendantCycle: a Provide to an ancestor closes a cycle that exists only
+// in the view of a descendant scope; afterwards the same key is registered
+// again and invoked.
+func (g *genCtx) tmplDescendantCycle() {
+	if g.ft.NT < 2 {
+		return
+	}
+	g.ensureScopes(2)
+	p := g.r.Perm(g.ft.NT)
+	k1, k2 := p[0], p[1]
+	child := 1 + g.r.Intn(len(g.m.S)-1)
+	parent := g.m.S[child].Parent
+	g.simpleCtor(child, []int{k2}, k1, false, "descendant-cycle")
+	g.simpleCtor(parent, []int{k1}, k2, g.r.P(0.2), "descendant-cycle") // closes the cycle in the child's view only
+	if g.r.P(0.7) {
+		g.simpleCtor(parent, nil, k2, false, "descendant-cycle") // the same key again: must be accepted
+	}
+	g.simpleInvoke([]int{parent, child}[g.r.Intn(2)], []int{k2}, "descendant-cycle")
 }
